@@ -12,7 +12,10 @@ CLAIMED = {
     "C01": ("Theorems (Lean 4, any linearly ordered field) about the engine model's update: a marked security carries position*price*multiplier, "
             "NaN price with an open position raises, strategy value = cash + children, weights = value/parent value; "
             "the model is re-run from the real pre-state on every generated step and compared inside the C01 footprint "
-            "(value, notional, weight, position, rows, flags); a monitor recomputes the identity from public getters at recorded observation points.",
+            "(value, notional, weight, position, rows, flags); a monitor recomputes the identity from public getters at recorded observation points. "
+            "Fragment C01_run: `btDay_balanced` / `btLoop_balanced` / `btRun_balanced` - at the end of every date of Backtest.run with any public algos every strategy at every depth is balanced, "
+            "securities are marked, weights are value shares, and the rows of the date equal the end-of-date state and are kept to the end of the run (the one exception, the bankruptcy step "
+            "taken by an opening update, stated exactly); instances for program trees without hypotheses on the algos.",
             "DESIGN 7 C01"),
     "C05": ("30 theorems about the model of SecurityBase.allocate (allocQ0, sizeLoop with the code's 10^4 cap as fuel, allocQuantity, secAllocate): zero amount / bad price / "
             "close-out, exit characterisation of the sizing search for every fuel and outlay function, integrality and maximality under a strictly monotone outlay, "
@@ -52,7 +55,9 @@ CLAIMED = {
             "position = 0; the unrestricted statement is refuted by a Lean witness and replayed on the real code as a known finding), k further updates change nothing, a refreshing "
             "read equals refresh / is the identity on a fresh world, update writes rows only at the current index (hedge notional rows stay zero), transact writes no row, and every "
             "public operation (hence every finite sequence) keeps the tree shape and the length of every row list. Whole-snapshot step correspondence; monitors: update-twice twins, "
-            "read-vs-explicit-update twins, past rows compared between consecutive snapshots, no series beyond now.",
+            "read-vs-explicit-update twins, past rows compared between consecutive snapshots, no series beyond now. "
+            "Fragment C08_run: over Backtest.run with any public algos no recorded row of an earlier date ever changes and no series grows (`btLoop_append_only`, `btRun_append_only`, program "
+            "instances), a further update after a day is the identity (`btDay_update_idem`), the world a day returns is not stale and any read leaves every strategy unchanged (`btDay_reads_fresh`).",
             "DESIGN 7 C08"),
     "C12": ("Theorems (Lean 4, lists of any length, all flag combinations, all n/offset/day-count parameters) about an executable model of RunPeriod.__call__ + the five compare_dates + RunOnce/RunOnDate/RunAfterDate/RunAfterDays/RunEveryNPeriods over a forward civil calendar (leap years, ISO year/week proved to identify the Monday week, period identifiers proved monotone in time): pre-start row, None and foreign dates never fire; first/last row = flag; interior row fires iff the period identifier changes against the neighbour = first (last) row of its period; closed forms of the counting schedulers incl. once per distinct date. The property text as a whole is proved off the edge rows and, for RunWeekly, off weeks that straddle New Year; on those inputs the code violates the text (Lean witnesses, listed as known findings). The model is compared with the real schedulers (direct calls on a real Strategy and whole Backtest runs) on generated indices, the Lean calendar with pandas on every generated timestamp (thorough: every day of pandas' ns range); an independent stdlib-datetime monitor evaluates the text on the real results.",
             "DESIGN 7 C12"),
@@ -82,7 +87,10 @@ CLAIMED = {
             "brings a security child at any depth to weight x base, the whole algo on a flat strategy (any number of children and targets, induction over both loops) leaves every target at "
             "(1-cash) x w, closes every non-target above TOL and keeps cash = V - sum of targets (partial: one level, fractional, no costs, TargetExact), sub-strategy targets receive and spread "
             "capital by child weight (any tree), whole-unit targets are within one unit's value, RebalanceOverTime's schedule reaches the target in n equal steps; Lean witnesses of the "
-            "zero-value non-target that stays open (known finding) and of a target whose quantity is below TOL. Correspondence: the real Rebalance call re-executed by the model from "
+            "zero-value non-target that stays open (known finding) and of a target whose quantity is below TOL. Fragment C06_costs (the 'within one trading unit plus costs' half and nesting): "
+            "`Rebalance_within_costs` (any commission function, any spreads, fractional: each target ends within the cost booked for its own trade, up to the isclose exit of the sizing search; "
+            "total' = total - costs), `Rebalance_within_unit_plus_costs` / `Rebalance_unit_bound` (whole units), `Rebalance_at_path` / `Rebalance_exact_at_path` (any path of any tree), "
+            "`Rebalance_substrategy_targets`, `Rebalance_from_stale`; Lean witness that a flat fee can swallow a small target. Correspondence: the real Rebalance call re-executed by the model from "
             "the real pre-state on random prior portfolios; monitor: target weights, closed non-targets, cash remainder, sub-strategy spreading, n-step variant.",
             "DESIGN 7 C06"),
     "C04": ("Theorems (Bt.C04, ~60) over the engine and run-level model: truncating every supplied data column after row t commutes with every engine operation executed at a clock <= t "
